@@ -123,6 +123,8 @@ def rules(ck, P):
     b = builds[0]
     comp.sources_in_list_order(ck, "R-FIRST", "overlay", b, adt)
     comp.pyramid_union_rule(ck, P, "R-COVER-OPS")
+    from . import boxalg
+    boxalg.union_rule(ck, P, "R-UNION")
     lets = comp.lets_of(b)
     sh_ = None
     for n in ir.walk_nodes(b["body"]):
